@@ -8,8 +8,8 @@ from ..gen import G
 ID = "C19"
 LEVEL = "exploration"
 RULE = ("cases = SEQUENCES of 1-4 foreign calls in one program, each call = (library: one of two builds of the probe that tag their output differently, or a missing file) x (argument vector of length 0-6 over int, bigint, float, byte, bool, str with boundary values and "
-        "format-special characters) x (return form: first argument echoed back, last argument echoed back, no value, raised "
-        "error) + the fault cases missing library / missing symbol; the harness writes BINARY bytecode itself (its own encoder: "
+        "format-special characters) x (return form: first argument echoed back, last argument echoed back, no value, raised error with a fixed message, raised error whose message is made of the string arguments - one or several lines - and must be reported whole) "
+        "+ the fault cases missing library / missing symbol; the harness writes BINARY bytecode itself (its own encoder: "
         "push each argument, call_lib, printn *, make_str AFTER, printn *) and a probe dylib built against the working tree's "
         "bytecode crate prints the Debug form of the slice it receives. Oracle: the probe's lines equal the generated vector in "
         "order; after the call `printn *` shows exactly the returned value (or nothing); for a raised error or a missing "
@@ -111,7 +111,7 @@ def display(v):
     return x
 
 
-FORMS = {"first": "probe_echo_first", "last": "probe_echo_last", "none": "probe_none", "error": "probe_error", "only1": "probe_only_in_first"}
+FORMS = {"first": "probe_echo_first", "last": "probe_echo_last", "none": "probe_none", "error": "probe_error", "errtext": "probe_error_text", "only1": "probe_only_in_first"}
 LIBFILE = {1: "./libprobe.so", 2: "./libprobe2.so", "missing": "./no_such_library.so"}
 TAGS = {1: "PROBE", 2: "PROBE2"}
 
@@ -146,6 +146,10 @@ def build(case):
         if form == "error":
             failed = "FFI: probe failure with %d argument(s)" % len(vec)
             continue
+        if form == "errtext":
+            # the WHOLE message, every line of it (the report indents continuation lines: compared modulo leading blanks)
+            failed = "FFI: says <%s>" % "|".join(x for k, x in vec if k == "str")
+            continue
         if form in ("none", "only1") or not vec:
             exp.append("")
         else:
@@ -154,13 +158,24 @@ def build(case):
     data = encode(instrs)
     if failed:
         asserts = [{"kind": "stdout_eq", "step": "run", "value": "".join(l + "\n" for l in exp)},
-                   {"kind": "exit", "step": "run", "in": ["error"]}, {"kind": "stderr_has", "step": "run", "value": failed},
+                   {"kind": "exit", "step": "run", "in": ["error"]}, {"kind": "c19_message", "step": "run", "value": failed},
                    {"kind": "stdout_lacks", "step": "run", "value": "AFTER"}]
     else:
         exp.append("AFTER")
         asserts = [{"kind": "stdout_eq", "step": "run", "value": "".join(l + "\n" for l in exp)}, {"kind": "exit", "step": "run", "in": ["ok"]}]
     return {"files": {"p/q/r/main.mmm": {"b64": base64.b64encode(data).decode()}}, "symlinks": {"p/q/r/libprobe.so": "{PROBE}", "p/q/r/libprobe2.so": "{PROBE2}"}, "cwd": "p/q/r",
             "steps": [{"id": "run", "argv": ["mscript", "execute", "main.mmm"]}], "asserts": asserts}
+
+
+def _flat(text):
+    return "\n".join(l.lstrip(" \t") for l in text.replace("\r\n", "\n").split("\n"))
+
+
+@scenario.assert_kind("c19_message")
+def a_message(a, res, ctx):
+    """the run-time error carries the message: all of it, modulo the indentation the report gives to continuation lines"""
+    if _flat(a["value"]) not in _flat(res[a["step"]].stderr):
+        return "step %s: stderr lacks the message %r: %r" % (a["step"], a["value"], res[a["step"]].stderr[-400:])
 
 
 def describe(case):
@@ -172,7 +187,7 @@ def check(case):
     sc = build(case)
     res, fails, _ = scenario.execute(sc)
     kinds = set(k for c in calls for k, _ in c["args"])
-    faulty = any(c["lib"] == "missing" or c.get("symbol") or c["form"] == "error" or (c["form"] == "only1" and c["lib"] == 2) for c in calls)
+    faulty = any(c["lib"] == "missing" or c.get("symbol") or c["form"] in ("error", "errtext") or (c["form"] == "only1" and c["lib"] == 2) for c in calls)
     nt = any(len(c["args"]) >= 2 and len(set(k for k, _ in c["args"])) >= 2 for c in calls) or faulty or len(calls) >= 2
     labels = ["calls=%d" % len(calls), "libs=%d" % len(set(c["lib"] for c in calls))] + ["form=" + c["form"] for c in calls] + ["argc=%d" % len(c["args"]) for c in calls] + \
              ["kind=" + k for k in kinds] + (["fault"] if faulty else [])
@@ -197,6 +212,10 @@ def enumerated(tier, seed):
         for b in VALUES[1::4]:
             cases.append({"args": [a, b], "form": "first"})
             cases.append({"args": [a, b], "form": "last"})
+    # error messages chosen by the caller: one / several lines, leading and trailing line breaks, format-special text
+    for text in ("plain", "two\nlines", "three\nlines\nhere", "\nleading break", "trailing break\n", "a\n\nb", "tab\there", "q\"r", "back\\slash", "é😀", "", " lead", "cr\r\nlf"):
+        cases.append({"args": [("int", 1), ("str", text)], "form": "errtext"})
+        cases.append({"args": [("str", text), ("str", "x\ny")], "form": "errtext"})
     for fault in ("missing-library", "missing-symbol"):
         for n in (0, 1, 3):
             cases.append({"args": VALUES[:n], "form": "first", "fault": fault})
@@ -206,7 +225,7 @@ def enumerated(tier, seed):
     for l1 in (1, 2):
         for l2 in (1, 2):
             for f1 in ("first", "last", "none", "only1"):
-                for f2 in ("first", "last", "none", "error", "only1"):
+                for f2 in ("first", "last", "none", "error", "errtext", "only1"):
                     cases.append({"calls": [C(l1, f1, a1), C(l2, f2, a2)]})
     for l1 in (1, 2):
         cases.append({"calls": [C(l1, "first", a1), C("missing", "first", a2)]})
@@ -246,7 +265,7 @@ def sequences(draw):
     for _ in range(g.weighted([(5, 1), (3, 2), (2, 3), (1, 4)])):
         args = draw(vectors())
         fault = g.weighted([(12, None), (1, "missing-library"), (1, "missing-symbol")])
-        calls.append({"lib": "missing" if fault == "missing-library" else g.choice([1, 1, 2]), "form": g.choice(["first", "last", "none", "error", "only1", "first", "last"]),
+        calls.append({"lib": "missing" if fault == "missing-library" else g.choice([1, 1, 2]), "form": g.choice(["first", "last", "none", "error", "errtext", "only1", "first", "last"]),
                       "args": args, "symbol": "probe_does_not_exist" if fault == "missing-symbol" else None})
     return {"calls": calls}
 
